@@ -426,8 +426,7 @@ def exp (x : FV) (a : Arg) : List String :=
   | .nan => []
   | .inf _ => ["toExponential_inf"]
   | .fin s m e =>
-    if a.isDefined ∧ ltI f 0 then []
-    else if a.isDefined ∧ gtI f 20 then ["toExponential_range"]
+    if a.isDefined ∧ (ltI f 0 ∨ gtI f 20) then []
     else
       let ex : Int :=
         if m = 0 then 0
@@ -446,8 +445,7 @@ def prec (x lg : FV) (a : Arg) : List String :=
     | .nan => []
     | .inf _ => ["toPrecision_inf"]
     | .fin s m e =>
-      if ltI pI 1 then []
-      else if gtI pI 21 then ["toPrecision_range"]
+      if ltI pI 1 ∨ gtI pI 21 then []
       else
         let p := (intOf pI).toNat
         let (ds, ex) : List Nat × Int := if m = 0 then (List.replicate p 0, 0) else sigRoundUp m e p
